@@ -260,13 +260,13 @@ Proof.
   assert (H1 : NbInv (if pn then parsed_nb b c else b)) by (destruct pn; [now apply NbInv_parsed|exact H]).
   set (b1 := if pn then parsed_nb b c else b) in *. destruct H1 as [I P].
   assert (Pb : npw b1 = npw b) by (unfold b1; destruct pn; reflexivity).
-  destruct (zget n (peers s)) as [p|].
+  destruct (zget n (peers s)) as [[p q]|].
   2:{ split; cbn [nsys npw]; [exact I|now left]. }
   destruct (p =? nparams c).
   - (* the loop of Peer._main must forget Neighbor.previous once replace_reload has used it (reload_clears, gen) *)
     split; cbn [nsys npw]; [now apply run_inv|]. unfold reload_clears. rewrite andb_false_r. now left.
-  - destruct (fix_eager fx); split; cbn [nsys npw]; try (now right).
-    + apply step_inv. now apply run_inv.
+  - destruct (fix_eager fx); split; cbn [nsys npw]; try (now right); try (now left).
+    + now apply run_inv.
     + now apply step_inv.
 Qed.
 
@@ -346,7 +346,7 @@ Proof.
   assert (I1 : zget k (intended (nsys (parsed_nb b0 c))) =
                match lastk k (nroutes c) with Some x => Some (rval x) | None => zget k (intended (nsys b0)) end).
   { cbn [parsed_nb nsys]. rewrite intended_run by apply simple_ann. apply IE_ann. }
-  destruct (zget n (peers s)) as [p|] eqn:Gp.
+  destruct (zget n (peers s)) as [[p q]|] eqn:Gp.
   - assert (RC' : IE k (rr_ops owed (nroutes c)) (IE k (map Ann (nroutes c)) (zget k (intended (nsys b0)))) =
                  diffed (prev_routes s n) (nroutes c) k
                    (if has_idx k (npw b0) then None else zget k (intended (nsys b0)))).
@@ -358,7 +358,7 @@ Proof.
       rewrite intended_run by apply simple_rr. cbn [parsed_nb nsys].
       rewrite intended_run by apply simple_ann. exact RC'.
     + destruct (fix_eager fx); cbn [nsys npw].
-      * cbn [has_idx existsb]. rewrite (intended_step _ Drop) by reflexivity. cbn [ieff].
+      * cbn [has_idx existsb].
         rewrite intended_run by apply simple_rr. cbn [parsed_nb nsys].
         rewrite intended_run by apply simple_ann. exact RC'.
       * rewrite has_idx_leftover. rewrite (intended_step _ Drop) by reflexivity. cbn [ieff]. rewrite I1.
@@ -399,11 +399,30 @@ Proof.
   rewrite (intended_step _ Establish) by reflexivity. reflexivity.
 Qed.
 
-Lemma peers_rstep_ribop : forall fx s n o, peers (rstep fx s (RibOp n o)) = peers s.
+(* the hand-over of Peer._reset changes no key of Reactor._peers *)
+Lemma zget_handover_none : forall n m ps, zget m (handover n ps) = None <-> zget m ps = None.
 Proof.
-  intros. cbn [rstep]. destruct (zmem n (peers s)); [|reflexivity].
-  destruct (zget n (ribs s)); reflexivity.
+  intros n m ps. unfold handover. destruct (zget n ps) as [[p [q|]]|] eqn:G; try reflexivity.
+  destruct (zspec m n) as [->|N].
+  - rewrite aget_aset_same by exact zspec. rewrite G. split; discriminate.
+  - rewrite aget_aset_other; [reflexivity|exact zspec|exact N].
 Qed.
+
+Lemma zmem_handover : forall n m ps, zmem m (handover n ps) = zmem m ps.
+Proof.
+  intros n m ps. unfold amem. pose proof (zget_handover_none n m ps) as H.
+  destruct (zget m (handover n ps)), (zget m ps); try reflexivity.
+  - destruct H as [_ H]. discriminate (H eq_refl).
+  - destruct H as [H _]. discriminate (H eq_refl).
+Qed.
+
+Lemma zmem_peers_ribop : forall (o : op) n m ps,
+  zmem m (match o with Drop => handover n ps | _ => ps end) = zmem m ps.
+Proof. intros o n m ps. destruct o; try reflexivity. apply zmem_handover. Qed.
+
+Lemma zget_peers_ribop_none : forall (o : op) n m ps,
+  zget m (match o with Drop => handover n ps | _ => ps end) = None -> zget m ps = None.
+Proof. intros o n m ps H. destruct o; try exact H. now apply zget_handover_none in H. Qed.
 
 Definition Track (n k : Z) (v : option (Z * Z)) (s : st) : Prop :=
   exists b, zget n (ribs s) = Some b /\ NbInv b /\ goal b k = v.
@@ -484,9 +503,9 @@ Qed.
 
 (* ================================================================ 5. the states reloads start from *)
 
-Lemma amem_commit_peers : forall s committed n, zmem n (commit_peers s committed) = zmem n committed.
+Lemma amem_commit_peers : forall fx s committed n, zmem n (commit_peers fx s committed) = zmem n committed.
 Proof.
-  intros s committed n. unfold amem, commit_peers. rewrite aget_build.
+  intros fx s committed n. unfold amem, commit_peers. rewrite aget_build.
   destruct (zget n committed) as [c|] eqn:G.
   - rewrite in_merge_names; [reflexivity|]. eapply aget_in_keys; [exact zspec|exact G].
   - destruct (existsb _ _); reflexivity.
@@ -511,7 +530,7 @@ Proof.
   intros fx s n o R. cbn [rstep]. destruct (zmem n (peers s)); [|exact R].
   destruct (zget n (ribs s)) as [b|] eqn:G; [|exact R].
   destruct (rd_inv s R n b G) as [I P].
-  constructor; cbn [stale ribs peers neighbors]; [exact (rd_stale s R)| |exact (rd_peers s R)].
+  constructor; cbn [stale ribs peers neighbors]; [exact (rd_stale s R)| |intros m0; rewrite zmem_peers_ribop; apply (rd_peers s R)].
   intros m b' G'. destruct (zspec m n) as [->|N].
   - rewrite aget_aset_same in G' by exact zspec. injection G' as <-.
     assert (NI : NbInv (nb_step b o)) by (apply NbInv_step; split; [exact I|now left]).
@@ -684,8 +703,8 @@ Lemma Steady_ribop : forall fx s n o, Steady s -> Steady (rstep fx s (RibOp n o)
 Proof.
   intros fx s n o S. cbn [rstep]. destruct (zmem n (peers s)) eqn:M; [|exact S].
   destruct (zget n (ribs s)) as [b|] eqn:G; [|exact S].
-  constructor; cbn [stale peers neighbors ribs]; [exact (sd_stale s S)|exact (sd_peers s S)|].
-  intros m b' G' P. destruct (zspec m n) as [->|N].
+  constructor; cbn [stale peers neighbors ribs]; [exact (sd_stale s S)|intros m0; rewrite zmem_peers_ribop; apply (sd_peers s S)|].
+  intros m b' G' P. apply zget_peers_ribop_none in P. destruct (zspec m n) as [->|N].
   - unfold amem in M. rewrite P in M. discriminate.
   - rewrite aget_aset_other in G'; [now apply (sd_orphan s S m)|exact zspec|exact N].
 Qed.
@@ -794,7 +813,7 @@ Proof. constructor; try reflexivity. intros n b G. discriminate. Qed.
 
 Lemma npw_commit_eager : forall fx s n c pn b, fix_eager fx = true -> npw (commit_nb fx s n c pn b) = [].
 Proof.
-  intros fx s n c pn b F. unfold commit_nb. destruct (zget n (peers s)) as [p|]; [|reflexivity].
+  intros fx s n c pn b F. unfold commit_nb. destruct (zget n (peers s)) as [[p q]|]; [|reflexivity].
   destruct (p =? nparams c); cbn [npw].
   - unfold reload_clears. now rewrite andb_false_r.
   - rewrite F. reflexivity.
@@ -831,11 +850,11 @@ Lemma Good_ribop : forall fx s m o, Good s -> Good (rstep fx s (RibOp m o)).
 Proof.
   intros fx s m o G. cbn [rstep]. destruct (zmem m (peers s)) eqn:M; [|exact G].
   destruct (zget m (ribs s)) as [b|] eqn:Gb; [|exact G].
-  constructor; cbn [stale peers neighbors ribs]; [exact (gd_stale s G)|exact (gd_peers s G)| |].
+  constructor; cbn [stale peers neighbors ribs]; [exact (gd_stale s G)|intros m0; rewrite zmem_peers_ribop; apply (gd_peers s G)| |].
   - intros n b' H. destruct (zspec n m) as [->|N].
     + rewrite aget_aset_same in H by exact zspec. injection H as <-. apply npw_step_nil. now apply (gd_npw s G m).
     + rewrite aget_aset_other in H; [now apply (gd_npw s G n)|exact zspec|exact N].
-  - intros n P. destruct (zspec n m) as [->|N].
+  - intros n P. apply zget_peers_ribop_none in P. destruct (zspec n m) as [->|N].
     + unfold amem in M. rewrite P in M. discriminate.
     + rewrite aget_aset_other; [now apply (gd_orphan s G)|exact zspec|exact N].
 Qed.
@@ -848,23 +867,28 @@ Proof.
   now apply intended_step.
 Qed.
 
+Lemma neighbors_rstep_ribop : forall fx s m o, neighbors (rstep fx s (RibOp m o)) = neighbors s.
+Proof.
+  intros. cbn [rstep]. destruct (zmem m (peers s)); [|reflexivity]. destruct (zget m (ribs s)); reflexivity.
+Qed.
+
+Lemma ribs_rstep_other : forall fx s m n o, n <> m -> zget n (ribs (rstep fx s (RibOp m o))) = zget n (ribs s).
+Proof.
+  intros fx s m n o N. cbn [rstep]. destruct (zmem m (peers s)); [|reflexivity].
+  destruct (zget m (ribs s)); [|reflexivity]. cbn [ribs]. apply aget_aset_other; [exact zspec|exact N].
+Qed.
+
 Lemma history_step : forall fx n k s sp x, all_fixed fx -> simple_rop x = true ->
   Good s -> Rel n k s sp -> Good (rstep fx s x) /\ Rel n k (rstep fx s x) (spec_step n k sp x).
 Proof.
   intros fx n k s [cn v] x [F1 [F2 [F3 F4]]] S G [RN RR]. cbn [fst snd] in *.
   destruct x as [m o|o].
   - (* an operation on one RIB *)
-    split; [now apply Good_ribop|]. cbn [rstep spec_step].
+    split; [now apply Good_ribop|].
     destruct (zspec m n) as [->|N].
-    2:{ assert (Same : zget n (ribs (if zmem m (peers s) then match zget m (ribs s) with
-                 | Some b => {| neighbors := neighbors s; stale := stale s; peers := peers s; ribs := zset m (nb_step b o) (ribs s) |}
-                 | None => s end else s)) = zget n (ribs s) /\
-               neighbors (if zmem m (peers s) then match zget m (ribs s) with
-                 | Some b => {| neighbors := neighbors s; stale := stale s; peers := peers s; ribs := zset m (nb_step b o) (ribs s) |}
-                 | None => s end else s) = neighbors s).
-        { destruct (zmem m (peers s)); [|split; reflexivity]. destruct (zget m (ribs s)); [|split; reflexivity].
-          cbn [ribs neighbors]. split; [|reflexivity]. apply aget_aset_other; [exact zspec|congruence]. }
-        destruct Same as [Sr Sn]. split; cbn [fst snd]; [now rewrite Sn|]. rewrite Sr. exact RR. }
+    2:{ unfold Rel. rewrite neighbors_rstep_ribop, (ribs_rstep_other fx s m n o) by congruence.
+        cbn [spec_step]. destruct (zspec m n); [contradiction|]. split; assumption. }
+    cbn [rstep spec_step]. rewrite Z.eqb_refl.
     destruct cn as [c0|]; cbn [fst snd].
     + destruct RR as [b [Gb Iv]].
       assert (M : zmem n (peers s) = true).
@@ -954,3 +978,31 @@ Lemma history_eager_witness_repaired :
   zget 2 (peer (nsys (get_nb 1 (ribs (run_r repaired eager_ops st0))))) = Some (1, 1) /\
   snd (spec_run 1 2 eager_ops) = Some (1, 1).
 Proof. vm_compute. split; reflexivity. Qed.
+
+(* ---- a neighbor removed and configured again: nothing of its earlier incarnation counts *)
+
+Definition absent (n : Z) (x : rop) : bool :=
+  match x with Reload (Parsed cfg) => negb (zmem n cfg) | _ => true end.
+
+Lemma spec_absent : forall n k ops, forallb (absent n) ops = true ->
+  fold_left (spec_step n k) ops (None, None) = (None, None).
+Proof.
+  intros n k ops. induction ops as [|x ops IH]; intros H; [reflexivity|].
+  simpl in H. apply andb_prop in H. destruct H as [H1 H2]. simpl.
+  assert (E : spec_step n k (None, None) x = (None, None)).
+  { destruct x as [m o|[cfg|clean pre|]]; cbn [spec_step fst]; try reflexivity.
+    - destruct (m =? n); reflexivity.
+    - cbn [absent] in H1. apply negb_true_iff in H1. now rewrite (zmem_none n cfg H1). }
+  rewrite E. now apply IH.
+Qed.
+
+Theorem readd_forgets : forall n k before cfg1 mid cfg2 c after,
+  zget n cfg1 = None -> forallb (absent n) mid = true -> zget n cfg2 = Some c ->
+  spec_run n k (before ++ Reload (Parsed cfg1) :: mid ++ Reload (Parsed cfg2) :: after) =
+  fold_left (spec_step n k) after (Some c, option_map rval (lastk k (nroutes c))).
+Proof.
+  intros n k before cfg1 mid cfg2 c after H1 Hm H2. unfold spec_run.
+  rewrite fold_left_app. cbn [fold_left]. cbn [spec_step]. rewrite H1.
+  rewrite fold_left_app. rewrite spec_absent by exact Hm. cbn [fold_left spec_step fst snd]. rewrite H2.
+  unfold diffed. destruct (lastk k (nroutes c)); reflexivity.
+Qed.
